@@ -143,6 +143,16 @@ class C14(common.Spec):
                          cnt=edzed.Counter('cnt', persistent=True))
             SlowInit('slowinit', init_timeout=20)
             SlowStop('slowstop', stop_timeout=20)
+            crashed = []
+            if abort_how == 'simerror':
+                # a failure inside the simulation task itself: a combinational block cannot be evaluated
+                def boomf(x):
+                    if x == 13:
+                        crashed.append(True)
+                        raise RuntimeError('evaluation failed')
+                    return x
+                trig = edzed.Input('trig', initdef=0)
+                edzed.FuncBlock('boomf', func=boomf).connect(trig)
             for blk in dests.values():
                 orig = blk.event
 
@@ -178,6 +188,13 @@ class C14(common.Spec):
                     dests['p'].event('boom')
                 except RuntimeError:
                     pass
+            elif abort_how == 'simerror':
+                trig.event('put', value=13)
+                for _ in range(50):
+                    if crashed:
+                        break
+                    await asyncio.sleep(0)
+                assert crashed, "harness: the failing block was not evaluated"
             elif abort_how == 'ctrl':
                 edzed.ExtEvent(circuit.findblock('_ctrl') if '_ctrl' in circuit._blocks
                                else dests['p'], 'shutdown')
@@ -271,7 +288,7 @@ class C14(common.Spec):
 def gen_cases(run):
     rng = run.rng
     cases = []
-    scenarios = ['shutdown', 'abort', 'handler']
+    scenarios = ['shutdown', 'abort', 'handler', 'simerror']
     n_per = 5 if run.tier == 'quick' else 40
     for scen in scenarios:
         for ph in PHASES:
